@@ -1,7 +1,6 @@
 package c12
 
 import (
-	"vh/deferchk"
 	"bufio"
 	"bytes"
 	"context"
@@ -28,6 +27,7 @@ import (
 	"github.com/vektah/gqlparser/v2/gqlerror"
 	"pgregory.net/rapid"
 
+	"vh/deferchk"
 	"vh/sched"
 	"vh/strictjson"
 	"vh/vfrun"
